@@ -178,6 +178,116 @@ theorem reachable_bounded (ops : List Op) : (ops.foldl step {}).stack.length ≤
   | nil => intro k h; simpa using h
   | cons op ops ih => intro k h; exact ih _ (step_bounded k op h)
 
+/-! ### refinement to the protocol's stack, read as one history list
+
+`hist k` is what the protocol document calls the stack: the saved flag sets, oldest first,
+followed by the flags in force. The three operations are then the obvious list operations. -/
+
+/-- the saved flag sets, oldest first, then the current flags -/
+def hist (k : Kbd) : List Nat := k.stack ++ [k.flags]
+
+theorem hist_length (k : Kbd) : (hist k).length = k.stack.length + 1 := by simp [hist]
+
+/-- set / or / clear replace the last element only -/
+theorem hist_update (k : Kbd) (f m : Int) :
+    hist (k.update f m) = (hist k).dropLast ++ [(k.update f m).flags] := by
+  simp [hist, update_stack]
+
+/-- push appends the new flags; when 32 sets are already saved the oldest one is dropped -/
+theorem hist_push (k : Kbd) (f : Int) :
+    hist (k.push f) =
+      (if k.stack.length ≥ keyboardStackMax then (hist k).tail else hist k) ++ [f.toNat] := by
+  unfold hist Kbd.push
+  simp only
+  split
+  · rename_i h
+    have : k.stack ≠ [] := by
+      intro h0; rw [h0] at h; simp [keyboardStackMax] at h
+    cases hs : k.stack with
+    | nil => exact absurd hs this
+    | cons a l => simp
+  · rfl
+
+/-- pop n: the last n elements go; when nothing would be left the flags are reset to 0 -/
+theorem hist_popN (n : Nat) (k : Kbd) :
+    hist (Kbd.popN n k) =
+      if n < (hist k).length then (hist k).take ((hist k).length - n) else [0] := by
+  rw [hist_length]
+  cases n with
+  | zero => simp [Kbd.popN, hist, List.take_of_length_le]
+  | succ n =>
+    by_cases h : n < k.stack.length
+    · rw [popN_restores n k h]
+      have h1 : n + 1 < k.stack.length + 1 := by omega
+      simp only [h1, if_true, hist]
+      have e : k.stack.length + 1 - (n + 1) = (k.stack.length - 1 - n) + 1 := by omega
+      rw [e, List.take_append_of_le_length (by omega), List.take_succ_eq_append_getElem (by omega)]
+    · have h1 : ¬ (n + 1 < k.stack.length + 1) := by omega
+      simp only [h1, if_false]
+      obtain ⟨hf, hs⟩ := popN_beyond (n + 1) k (by omega)
+      simp [hist, hf, hs]
+
+/-- `CSI < n u` in terms of the history (n as written in the sequence) -/
+theorem hist_pop (k : Kbd) (n : Int) :
+    hist (k.pop n) =
+      if n.toNat < (hist k).length then (hist k).take ((hist k).length - n.toNat) else [0] :=
+  hist_popN n.toNat k
+
+/-- a push below the limit followed by a pop of one entry is the identity -/
+theorem push_pop (k : Kbd) (f : Int) (h : k.stack.length < keyboardStackMax) :
+    (k.push f).pop 1 = k := by
+  have hp : (k.push f).stack = k.stack ++ [k.flags] := by
+    unfold Kbd.push; simp only; rw [if_neg (by omega)]
+  rw [pop_one (k.push f) k.stack k.flags hp]
+
+/-- at the limit the push loses the oldest saved set for good -/
+theorem push_pop_at_limit (k : Kbd) (f : Int) (h : k.stack.length ≥ keyboardStackMax) :
+    (k.push f).pop 1 = { flags := k.flags, stack := k.stack.tail } := by
+  have hp : (k.push f).stack = k.stack.tail ++ [k.flags] := by
+    unfold Kbd.push; simp only; rw [if_pos h]
+  rw [pop_one (k.push f) k.stack.tail k.flags hp]
+
+theorem popN_reset (b : Nat) (k : Kbd) (hs : k.stack = []) (hf : k.flags = 0) : Kbd.popN b k = k := by
+  cases b with
+  | zero => rfl
+  | succ b =>
+    unfold Kbd.popN
+    simp only [hs, List.getLast?_nil]
+    cases k; simp_all
+
+theorem popN_succ (n : Nat) (k : Kbd) :
+    Kbd.popN (n + 1) k =
+      match k.stack.getLast? with
+      | none => { k with flags := 0 }
+      | some f => Kbd.popN n { flags := f, stack := k.stack.dropLast } := by
+  rw [Kbd.popN]
+  cases k.stack.getLast? <;> rfl
+
+/-- popping in two goes is popping once -/
+theorem popN_add (a b : Nat) (k : Kbd) : Kbd.popN (a + b) k = Kbd.popN b (Kbd.popN a k) := by
+  induction a generalizing k with
+  | zero => simp [Kbd.popN]
+  | succ a ih =>
+    rw [show a + 1 + b = (a + b) + 1 by omega, popN_succ (a + b) k, popN_succ a k]
+    cases hk : k.stack.getLast? with
+    | none =>
+      have hs : k.stack = [] := by simpa using hk
+      simp only
+      exact (popN_reset b { k with flags := 0 } hs rfl).symm
+    | some f => simp only; exact ih _
+
+/-- m pushes that stay below the limit followed by `CSI < m u` restore the state exactly -/
+theorem pushes_pop (k : Kbd) (fs : List Int) (h : k.stack.length + fs.length ≤ keyboardStackMax) :
+    Kbd.popN fs.length (fs.foldl Kbd.push k) = k := by
+  induction fs generalizing k with
+  | nil => simp [Kbd.popN]
+  | cons a l ih =>
+    simp only [List.length_cons] at h
+    have hlen : (k.push a).stack.length = k.stack.length + 1 := by
+      unfold Kbd.push; simp only; rw [if_neg (by omega)]; simp
+    rw [List.foldl_cons, List.length_cons, popN_add, ih (k.push a) (by omega)]
+    exact push_pop k a (by omega)
+
 /-! ### query and per-screen separation (terminal level) -/
 
 /-- `CSI ? u` reports the flags of the active screen, whatever the parameters, and changes nothing -/
@@ -212,6 +322,10 @@ example : ((List.range 40).foldl (fun k i => k.push (i : Int)) ({} : Kbd)).stack
 set_option maxRecDepth 8000 in
 example : ((List.range 40).foldl (fun k i => k.push (i : Int)) ({} : Kbd)).stack.head? = some 7 := by decide
 example : (({ flags := 13, stack := [] } : Kbd).update 5 3).flags = 8 := by decide
+example : hist (({ flags := 1, stack := [4, 2] } : Kbd).push 7) = [4, 2, 1, 7] := by decide
+example : hist (({ flags := 1, stack := [4, 2] } : Kbd).pop 2) = [4] := by decide
+example : hist (({ flags := 1, stack := [4, 2] } : Kbd).pop 3) = [0] := by decide
+example : Kbd.popN 3 ([5, 6, 7].foldl Kbd.push ({ flags := 1, stack := [4, 2] } : Kbd)) = { flags := 1, stack := [4, 2] } := by decide
 
 end TM.C19
 
@@ -237,3 +351,11 @@ end TM.C19
 #print axioms TM.C19.push_dispatch
 #print axioms TM.C19.pop_dispatch
 #print axioms TM.C19.set_dispatch
+#print axioms TM.C19.hist_update
+#print axioms TM.C19.hist_push
+#print axioms TM.C19.hist_popN
+#print axioms TM.C19.hist_pop
+#print axioms TM.C19.push_pop
+#print axioms TM.C19.push_pop_at_limit
+#print axioms TM.C19.popN_add
+#print axioms TM.C19.pushes_pop
